@@ -41,6 +41,19 @@ def build(tier, seed, exclude):
         err = EN.c11_history([T.real(r1), T.real(r2), T.real(r3)], T.real(prop), T.real(fail_first))
         return T.fail(err) if err else True
     """, timeout=to)
+    # rerun of a workflow with a split node under a concurrency limit: every job has to be executed again
+    pre_r = ["1 <= n <= 3 and 0 <= k <= 3"]
+    if "C11-rerun-truncated-by-max-concurrent" in exclude:
+        pre_r.append("k == 0 or k >= n")          # recorded finding: a finite limit smaller than the node's job count
+    g.cond("h_rerun_split_limited", "n: int, k: int", pre_r, """
+        kk = T.real(k)
+        err = EN.split_resubmission(T.real(n), None if kk == 0 else kk, "rerun")
+        return T.fail(err) if err else True
+    """, timeout=to)
+    g.witness("w_rerun_limited", """
+        err = EN.split_resubmission(2, 1, "rerun")
+        return T.fail(err) if err else True
+    """)
     g.cond("twin_c11", "rerun: bool", ["True"], """
         err = EN.c11([6, 0, 0], 0, T.real(rerun), 1)
         return False
